@@ -30,12 +30,18 @@ TEXTS = {
     # erroneous inputs that do not start with their first token
     "erroneous-leading-newline": "\n{ a = ; }\n",
     "erroneous-leading-space": " { a = 1; }}\n",
+    # a name written with a combining character (Nix compares names by code points: this is not the precomposed spelling)
+    "decomposed-name": "{\n  \"e\u0301\" = 0;\n  a = 1;\n}\n",
     # bytes that are not UTF-8 (a file saved as Latin-1): there is no text for the library to work on, so every command is an error
     "latin1-comment": "# caf\u00e9\n{\n  a = 1;\n  b = 2;\n}\n".encode("latin-1"),
     "latin1-string": "{\n  a = 1;\n  b = \"\u00fc\";\n}\n".encode("latin-1"),
 }
 COMMANDS = [("test",), ("set", "a", "2"), ("set", "z", '"s"'), ("set", "a", "{"), ("set", "a..b", "1"), ("set", "@v", "3"),
-            ("rm", "a"), ("rm", "zz"), ("rm", ""), ("set", "m.x", "[ 1 ]"), ("bogus",), ()]
+            ("rm", "a"), ("rm", "zz"), ("rm", ""), ("set", "m.x", "[ 1 ]"), ("bogus",), (),
+            # arguments reach the library exactly as given: blanks around a path or a value are part of it (the library refuses such
+            # paths), and names are compared by code points (no Unicode normalisation)
+            ("set", "a ", "2"), ("set", " a", "2"), ("rm", "a\n"), ("set", '"a" ', "2"), ("rm", "a\t"), ("set", "a", "2\u00a0"),
+            ("set", '"e\u0301"', "1"), ("set", '"\u2126"', "1"), ("rm", '"e\u0301"')]
 
 
 def library(cmd, text):
